@@ -722,6 +722,12 @@ orc_compiler_check_sizes (OrcCompiler *compiler)
 
     for(j=0;j<ORC_STATIC_OPCODE_N_DEST;j++){
       if (opcode->dest_size[j] == 0) continue;
+      if (multiplier * opcode->dest_size[j] > ORC_MAX_VAR_SIZE) {
+        ORC_COMPILER_ERROR (compiler, "opcode %s with this prefix needs %d-byte operands, at most %d are supported",
+            opcode->name, multiplier * opcode->dest_size[j], ORC_MAX_VAR_SIZE);
+        compiler->result = ORC_COMPILE_RESULT_UNKNOWN_PARSE;
+        return;
+      }
       if (multiplier * opcode->dest_size[j] !=
           compiler->vars[insn->dest_args[j]].size) {
         ORC_COMPILER_ERROR (compiler, "size mismatch, opcode %s dest[%d] is %d should be %d",
@@ -734,6 +740,12 @@ orc_compiler_check_sizes (OrcCompiler *compiler)
     }
     for(j=0;j<ORC_STATIC_OPCODE_N_SRC;j++){
       if (opcode->src_size[j] == 0) continue;
+      if (multiplier * opcode->src_size[j] > ORC_MAX_VAR_SIZE) {
+        ORC_COMPILER_ERROR (compiler, "opcode %s with this prefix needs %d-byte operands, at most %d are supported",
+            opcode->name, multiplier * opcode->src_size[j], ORC_MAX_VAR_SIZE);
+        compiler->result = ORC_COMPILE_RESULT_UNKNOWN_PARSE;
+        return;
+      }
       if (multiplier * opcode->src_size[j] !=
           compiler->vars[insn->src_args[j]].size &&
           compiler->vars[insn->src_args[j]].vartype != ORC_VAR_TYPE_PARAM &&
